@@ -1,6 +1,7 @@
 // Driver for C18: evaluates merge trees and status mappings on the real
-// goa.MergeErrors / http.ErrorResponse.StatusCode / grpc.EncodeError and
-// projects the results onto the observables of spec/ErrorAlgebra.tla.
+// goa.MergeErrors / http.NewErrorResponse / ErrorResponse.StatusCode / grpc.EncodeError /
+// grpc.DecodeError / grpc.NewServiceError and projects the results onto the observables of
+// spec/ErrorAlgebra.tla.
 package main
 
 import (
@@ -13,6 +14,7 @@ import (
 	"strconv"
 	"strings"
 
+	"google.golang.org/grpc/codes"
 	"google.golang.org/grpc/status"
 
 	goagrpc "goa.design/goa/v3/grpc"
@@ -28,15 +30,36 @@ type Flags struct {
 	Tmp bool `json:"tmp"`
 	F   bool `json:"f"`
 }
+
+// Cause: what a ServiceError wraps / what a non-ServiceError leaf is (ErrorAlgebra.tla, CAUSE dimension).
+type Cause struct {
+	Ck   string `json:"ck"`
+	Code int    `json:"code"`
+}
 type Leaf struct {
 	Kind  string `json:"kind"`
 	Name  string `json:"name"`
 	Flags Flags  `json:"flags"`
+	Cause Cause  `json:"cause"`
 }
 type Entry struct {
 	Name  string `json:"name"`
 	Field int    `json:"field"`
 	Msgs  []int  `json:"msgs"`
+}
+
+// Resp is an error response as it travels: name, message (tokens), flags, and whose identifier it has.
+type Resp struct {
+	Name  string `json:"name"`
+	Msgs  []int  `json:"msgs"`
+	Flags Flags  `json:"flags"`
+	ID    string `json:"id"`
+}
+type Wire struct {
+	HTTP  int  `json:"http"`
+	HResp Resp `json:"hresp"`
+	GRPC  int  `json:"grpc"`
+	GResp Resp `json:"gresp"`
 }
 type Obs struct {
 	Kind   string  `json:"kind"`
@@ -46,10 +69,60 @@ type Obs struct {
 	Flags  *Flags  `json:"flags,omitempty"`
 	Causes []int   `json:"causes,omitempty"`
 	Hist   []Entry `json:"hist,omitempty"`
+	Wire   *Wire   `json:"wire,omitempty"`
 }
 type built struct {
-	err   error // what the caller passes to MergeErrors (nil for a nil leaf)
-	cause error // underlying plain cause, if any
+	err   error             // what the caller passes to MergeErrors (nil for a nil leaf)
+	cause error             // the error it wraps (or is, for a non-ServiceError leaf), if any
+	top   *goa.ServiceError // the ServiceError closest to the top of err, by construction (nil: none)
+	inner *goa.ServiceError // a ServiceError below top (causes svc, svcg)
+	text  string            // the message text of the leaf: top.Message, or err.Error() without a ServiceError
+}
+
+// gimpl is a caller's own error type that carries a gRPC status.
+type gimpl struct {
+	msg string
+	st  *status.Status
+}
+
+func (g *gimpl) Error() string              { return g.msg }
+func (g *gimpl) GRPCStatus() *status.Status { return g.st }
+
+func foreignID(i int) string { return "did" + strconv.Itoa(i) }
+
+// mkCause builds the cause object of leaf i; inner is the ServiceError inside it, if any.
+func mkCause(c Cause, i int) (cause error, inner *goa.ServiceError) {
+	msg := "m" + strconv.Itoa(i)
+	code := codes.Code(c.Code)
+	switch c.Ck {
+	case "plain":
+		return errors.New(msg), nil
+	case "gst":
+		return status.Error(code, msg), nil
+	case "gstw":
+		return fmt.Errorf("u%d: %w", i, status.Error(code, msg)), nil
+	case "gsti":
+		return &gimpl{msg: "gi: " + msg, st: status.New(code, msg)}, nil
+	case "gstn":
+		return &gimpl{msg: "gn: " + msg}, nil
+	case "gstd":
+		// the status error of a downstream goa service: its own error response is already the first detail
+		st, err := status.New(code, msg).WithDetails(&goapb.ErrorResponse{
+			Name: "down", Id: foreignID(i), Msg: "d" + strconv.Itoa(i), Timeout: true, Temporary: true, Fault: true})
+		if err != nil {
+			vio.Die("cannot build a status with details: %v", err)
+		}
+		return st.Err(), nil
+	case "svc":
+		in := goa.TemporaryTimeoutError("inner", "%s", msg)
+		in.Fault = true
+		return in, in
+	case "svcg":
+		in := goa.NewServiceError(status.Error(code, msg), "inner", true, true, true)
+		return in, in
+	}
+	vio.Die("unknown cause %q", c.Ck)
+	return nil, nil
 }
 
 func mkLeaf(l Leaf, i int) built {
@@ -58,21 +131,35 @@ func mkLeaf(l Leaf, i int) built {
 	case "nil":
 		return built{}
 	case "plain":
-		e := errors.New(msg)
-		return built{err: e, cause: e}
-	case "svc", "svcf", "wrapped":
-		se := newSvc(l.Name, msg, l.Flags)
+		e, _ := mkCause(l.Cause, i)
+		if e == nil {
+			vio.Die("leaf %d: a plain leaf needs a cause that is an error (%q)", i, l.Cause.Ck)
+		}
+		return built{err: e, cause: e, text: e.Error()}
+	case "svc", "svcf", "nsvc", "wrapped":
+		var b built
+		if l.Cause.Ck == "none" {
+			if l.Kind == "nsvc" {
+				vio.Die("leaf %d: nsvc without a cause", i)
+			}
+			b.top = newSvc(l.Name, msg, l.Flags)
+		} else {
+			if l.Kind == "svc" || l.Kind == "svcf" {
+				vio.Die("leaf %d: %s with a cause", i, l.Kind)
+			}
+			b.cause, b.inner = mkCause(l.Cause, i)
+			b.top = goa.NewServiceError(b.cause, l.Name, l.Flags.T, l.Flags.Tmp, l.Flags.F)
+		}
 		if l.Kind == "svcf" {
 			f := "f" + strconv.Itoa(i)
-			se.(*goa.ServiceError).Field = &f
+			b.top.Field = &f
 		}
+		b.text = b.top.Message
+		b.err = b.top
 		if l.Kind == "wrapped" {
-			return built{err: fmt.Errorf("w%d: %w", i, se)}
+			b.err = fmt.Errorf("w%d: %w", i, b.top)
 		}
-		return built{err: se}
-	case "nsvc":
-		c := errors.New(msg)
-		return built{err: goa.NewServiceError(c, l.Name, l.Flags.T, l.Flags.Tmp, l.Flags.F), cause: c}
+		return b
 	}
 	vio.Die("unknown leaf kind %q", l.Kind)
 	return built{}
@@ -80,7 +167,7 @@ func mkLeaf(l Leaf, i int) built {
 
 // newSvc builds a cause-free service error through the public constructors when one exists for the
 // flag combination, else through the exported struct fields.
-func newSvc(name, msg string, fl Flags) error {
+func newSvc(name, msg string, fl Flags) *goa.ServiceError {
 	switch {
 	case !fl.T && !fl.Tmp && !fl.F:
 		return goa.PermanentError(name, "%s", msg)
@@ -118,12 +205,26 @@ func toInt(v any) int {
 	return 0
 }
 
-func parseMsgs(s string) []int {
+// texts maps the message texts of a case back to the spec's tokens: i = the message of leaf i as it was built,
+// 1000+i = the message of the detail leaf i's downstream status carries; anything else is -1.
+type texts map[string]int
+
+func textsOf(leaves []built) texts {
+	t := texts{}
+	for i, b := range leaves {
+		if b.err != nil {
+			t[b.text] = i + 1
+		}
+		t["d"+strconv.Itoa(i+1)] = 1000 + i + 1
+	}
+	return t
+}
+
+func (t texts) parse(s string) []int {
 	out := []int{}
 	for _, p := range strings.Split(s, "; ") {
-		p = strings.TrimPrefix(p, "m")
-		n, err := strconv.Atoi(p)
-		if err != nil {
+		n, ok := t[p]
+		if !ok {
 			n = -1 // a message that is not one of the leaves' messages
 		}
 		out = append(out, n)
@@ -142,101 +243,136 @@ func parseField(f *string) int {
 	return n
 }
 
+// idToken says whose identifier id is, relative to ref = the ServiceError closest to the top of the error
+// under observation (nil when it holds none).
+func idToken(id string, ref *goa.ServiceError, leaves []built) string {
+	if id == "" {
+		return "empty"
+	}
+	if ref != nil && id == ref.ID {
+		return "same"
+	}
+	for i, b := range leaves {
+		switch {
+		case id == foreignID(i + 1):
+			return "foreign"
+		case b.inner != nil && id == b.inner.ID:
+			return "inner"
+		case b.top != nil && id == b.top.ID:
+			return "other"
+		}
+	}
+	return "fresh"
+}
+
+// wire observes err as the transports carry it: the HTTP error response and status, the gRPC status code and
+// what comes back from EncodeError -> DecodeError -> NewServiceError.
+func wire(err error, ref *goa.ServiceError, leaves []built, tx texts) *Wire {
+	w := &Wire{}
+	w.HResp.Msgs, w.GResp.Msgs = []int{}, []int{}
+	resp := goahttp.NewErrorResponse(context.Background(), err)
+	if resp == nil {
+		w.HTTP = -1
+		w.HResp.Name = "?no-response"
+	} else {
+		w.HTTP = resp.StatusCode()
+		if er, ok := resp.(*goahttp.ErrorResponse); ok {
+			w.HResp = Resp{Name: er.Name, Msgs: tx.parse(er.Message), Flags: Flags{er.Timeout, er.Temporary, er.Fault}, ID: idToken(er.ID, ref, leaves)}
+		} else {
+			w.HResp.Name = "?not-an-error-response"
+		}
+	}
+	enc := goagrpc.EncodeError(err)
+	if enc == nil {
+		w.GRPC = -1
+		w.GResp.Name = "?no-error"
+		return w
+	}
+	st, ok := status.FromError(enc)
+	if !ok {
+		w.GRPC = -1
+		w.GResp.Name = "?no-status"
+		return w
+	}
+	w.GRPC = int(st.Code())
+	er, ok := goagrpc.DecodeError(enc).(*goapb.ErrorResponse)
+	if !ok {
+		w.GResp.Name = "?no-detail"
+		return w
+	}
+	back := goagrpc.NewServiceError(er)
+	w.GResp = Resp{Name: back.Name, Msgs: tx.parse(back.Message), Flags: Flags{back.Timeout, back.Temporary, back.Fault}, ID: idToken(back.ID, ref, leaves)}
+	return w
+}
+
+// topOf: the ServiceError closest to the top of res, known by construction (never through errors.As).
+func topOf(res error, leaves []built) *goa.ServiceError {
+	if se, ok := res.(*goa.ServiceError); ok {
+		return se
+	}
+	for _, b := range leaves {
+		if b.err != nil && b.err == res {
+			return b.top
+		}
+	}
+	return nil
+}
+
 func project(res error, leaves []built) Obs {
 	if res == nil {
 		return Obs{Kind: "nil"}
 	}
+	tx := textsOf(leaves)
+	w := wire(res, topOf(res, leaves), leaves, tx)
 	for i, b := range leaves {
 		if b.err != nil && b.err == res {
 			// identical value: still has to be untouched; a never-merged leaf has exactly its own message
 			if res.Error() == leafText(i+1, b) {
 				k := i + 1
-				return Obs{Kind: "same", Leaf: &k}
+				return Obs{Kind: "same", Leaf: &k, Wire: w}
 			}
 		}
 	}
 	var se *goa.ServiceError
 	if !errors.As(res, &se) {
 		n := "?non-service-error"
-		return Obs{Kind: "merged", Name: &n}
+		return Obs{Kind: "merged", Name: &n, Wire: w}
 	}
-	o := Obs{Kind: "merged", Name: &se.Name, Msgs: parseMsgs(se.Message), Flags: &Flags{se.Timeout, se.Temporary, se.Fault}, Causes: []int{}, Hist: []Entry{}}
+	o := Obs{Kind: "merged", Name: &se.Name, Msgs: tx.parse(se.Message), Flags: &Flags{se.Timeout, se.Temporary, se.Fault}, Causes: []int{}, Hist: []Entry{}, Wire: w}
 	for i, b := range leaves {
 		if b.cause != nil && errors.Is(res, b.cause) {
 			o.Causes = append(o.Causes, i+1)
 		}
 	}
 	for _, h := range se.History() {
-		o.Hist = append(o.Hist, Entry{Name: h.Name, Field: parseField(h.Field), Msgs: parseMsgs(h.Message)})
+		o.Hist = append(o.Hist, Entry{Name: h.Name, Field: parseField(h.Field), Msgs: tx.parse(h.Message)})
 	}
 	return o
 }
 
+// leafText: err.Error() of leaf i as it was built.
 func leafText(i int, b built) string {
-	var se *goa.ServiceError
-	if errors.As(b.err, &se) && error(se) != b.err {
-		return fmt.Sprintf("w%d: m%d", i, i)
+	if b.top != nil && error(b.top) != b.err {
+		return fmt.Sprintf("w%d: %s", i, b.text)
 	}
-	return "m" + strconv.Itoa(i)
+	return b.text
 }
 
 type SCase struct {
 	Kind  string `json:"kind"`
 	Name  string `json:"name"`
 	Flags Flags  `json:"flags"`
-}
-type SObs struct {
-	HTTP    int    `json:"http"`
-	GRPC    int    `json:"grpc"`
-	RTName  string `json:"rtname"`
-	RTFlags Flags  `json:"rtflags"`
-	RTSame  bool   `json:"rtsame"`
+	Cause Cause  `json:"cause"`
 }
 
-func statusCase(c SCase) SObs {
-	var err error
-	msg := "boom"
-	switch c.Kind {
-	case "svc":
-		err = newSvc(c.Name, msg, c.Flags)
-	case "wrapped":
-		err = fmt.Errorf("ctx: %w", newSvc(c.Name, msg, c.Flags))
-	case "plain":
-		err = errors.New(msg)
+// statusCase: one error alone (leaf 1 of a one-leaf case) observed on the wire.
+func statusCase(c SCase) *Wire {
+	l := Leaf{Kind: c.Kind, Name: c.Name, Flags: c.Flags, Cause: c.Cause}
+	if c.Kind == "svc" && c.Cause.Ck != "none" {
+		l.Kind = "nsvc"
 	}
-	var o SObs
-	resp := goahttp.NewErrorResponse(context.Background(), err)
-	o.HTTP = resp.StatusCode()
-	enc := goagrpc.EncodeError(err)
-	st, ok := status.FromError(enc)
-	if !ok {
-		o.GRPC = -1
-		return o
-	}
-	o.GRPC = int(st.Code())
-	dec := goagrpc.DecodeError(enc)
-	er, ok := dec.(*goapb.ErrorResponse)
-	if !ok {
-		o.RTName = "?no-detail"
-		return o
-	}
-	back := goagrpc.NewServiceError(er)
-	o.RTName = back.Name
-	o.RTFlags = Flags{back.Timeout, back.Temporary, back.Fault}
-	// identifier and message preserved?
-	var se *goa.ServiceError
-	if errors.As(err, &se) {
-		o.RTSame = back.ID == se.ID && back.Message == se.Message && back.Name == se.Name
-	} else {
-		o.RTSame = back.Message == msg && back.ID != ""
-	}
-	// the HTTP body carries the same fields
-	if er2, ok := resp.(*goahttp.ErrorResponse); ok {
-		if er2.Name != back.Name || er2.Message != back.Message || er2.Fault != back.Fault || er2.Timeout != back.Timeout || er2.Temporary != back.Temporary {
-			o.RTSame = false
-		}
-	}
-	return o
+	bs := []built{mkLeaf(l, 1)}
+	return wire(bs[0].err, bs[0].top, bs, textsOf(bs))
 }
 
 type Vec struct {
@@ -256,21 +392,67 @@ func randTree(r *rand.Rand, i, j int) []any {
 	return []any{"node", randTree(r, i, k), randTree(r, k+1, j)}
 }
 
+var gstCodes = []int{2, 4, 5, 13, 14}
+
+// randCause: svc = the cause of a ServiceError (else: what a non-ServiceError leaf is).  gstn is left to the
+// exhaustive single-error cases: inside a merge it hides the statuses behind it from status.FromError and
+// nothing says which code is right then; a bare gstd likewise (ErrorAlgebra.tla, BareSpace).
+func randCause(r *rand.Rand, svc bool) Cause {
+	cks := []string{"plain", "plain", "gst", "gst", "gstw", "gsti"}
+	if svc {
+		cks = append(cks, "gstd", "svc", "svcg")
+	}
+	ck := cks[r.Intn(len(cks))]
+	switch ck {
+	case "plain", "svc":
+		return Cause{Ck: ck}
+	}
+	return Cause{Ck: ck, Code: gstCodes[r.Intn(len(gstCodes))]}
+}
+
 func randLeaf(r *rand.Rand) Leaf {
-	kinds := []string{"svc", "svc", "svcf", "nsvc", "plain", "wrapped", "nil"}
+	kinds := []string{"svc", "svc", "svcf", "nsvc", "nsvc", "plain", "wrapped", "nil"}
 	k := kinds[r.Intn(len(kinds))]
+	none := Cause{Ck: "none"}
 	switch k {
 	case "nil":
-		return Leaf{Kind: k, Name: "-"}
+		return Leaf{Kind: k, Name: "-", Cause: none}
 	case "plain":
-		return Leaf{Kind: k, Name: "error", Flags: Flags{false, false, true}}
+		return Leaf{Kind: k, Name: "error", Flags: Flags{false, false, true}, Cause: randCause(r, false)}
 	}
 	names := []string{"n1", "n2"}
-	return Leaf{Kind: k, Name: names[r.Intn(2)], Flags: Flags{r.Intn(2) == 0, r.Intn(2) == 0, r.Intn(2) == 0}}
+	l := Leaf{Kind: k, Name: names[r.Intn(2)], Flags: Flags{r.Intn(2) == 0, r.Intn(2) == 0, r.Intn(2) == 0}, Cause: none}
+	if k == "nsvc" || (k == "wrapped" && r.Intn(2) == 0) {
+		l.Cause = randCause(r, true)
+	}
+	return l
+}
+
+func randStatus(r *rand.Rand) SCase {
+	names := []string{"n1", "unsupported_media_type", "error", ""}
+	switch r.Intn(5) {
+	case 0:
+		c := randCause(r, false)
+		if r.Intn(6) == 0 {
+			c = Cause{Ck: "gstn"}
+		}
+		return SCase{Kind: "plain", Name: "error", Flags: Flags{false, false, true}, Cause: c}
+	case 1:
+		return SCase{Kind: "wrapped", Name: names[r.Intn(4)], Flags: Flags{r.Intn(2) == 0, r.Intn(2) == 0, r.Intn(2) == 0}, Cause: randCause(r, true)}
+	}
+	c := randCause(r, true)
+	switch r.Intn(6) {
+	case 0:
+		c = Cause{Ck: "none"}
+	case 1:
+		c = Cause{Ck: "gstn"}
+	}
+	return SCase{Kind: "svc", Name: names[r.Intn(4)], Flags: Flags{r.Intn(2) == 0, r.Intn(2) == 0, r.Intn(2) == 0}, Cause: c}
 }
 
 func main() {
 	nrand := flag.Int("random", 0, "number of random trees (5-8 leaves) to evaluate and log as trace events")
+	nstat := flag.Int("random-status", 0, "number of random single errors to observe on the wire and log as trace events")
 	flag.Parse()
 	w, err := vio.NewWriter()
 	if err != nil {
@@ -312,5 +494,9 @@ func main() {
 		t := randTree(r, 1, n)
 		res := evalTree(t, bs)
 		w.Emit(map[string]any{"ev": "case", "leaves": ls, "tree": t, "obs": project(res, bs)})
+	}
+	for c := 0; c < *nstat; c++ {
+		sc := randStatus(r)
+		w.Emit(map[string]any{"ev": "status", "scase": sc, "obs": statusCase(sc)})
 	}
 }
